@@ -80,6 +80,9 @@ func evalC01(c *engine.Case) engine.Verdict {
 		if msg := engine.CheckBindings(w, o.Events); msg != "" {
 			v.Failf("%s", msg)
 		}
+		if msg := w.RetainedMismatch(); msg != "" {
+			v.Failf("%s", msg)
+		}
 		if engine.ConvExecs(o.Events) > 0 {
 			convRan = true
 		}
